@@ -59,10 +59,10 @@ func zvSessionAttrs(ibgp, addPathTX bool) routingtable.SessionAttrs {
 // zvNullClient is a route table client that does nothing.
 type zvNullClient struct{ n int }
 
-func (c *zvNullClient) AddPath(*bnet.Prefix, *route.Path) error            { c.n++; return nil }
-func (c *zvNullClient) AddPathInitialDump(*bnet.Prefix, *route.Path) error { c.n++; return nil }
+func (c *zvNullClient) AddPath(*bnet.Prefix, *route.Path) error            { return nil }
+func (c *zvNullClient) AddPathInitialDump(*bnet.Prefix, *route.Path) error { return nil }
 func (c *zvNullClient) EndOfRIB()                                          {}
-func (c *zvNullClient) RemovePath(*bnet.Prefix, *route.Path) bool          { c.n++; return true }
+func (c *zvNullClient) RemovePath(*bnet.Prefix, *route.Path) bool          { return true }
 func (c *zvNullClient) ReplacePath(*bnet.Prefix, *route.Path, *route.Path) {}
 func (c *zvNullClient) RefreshRoute(*bnet.Prefix, []*route.Path)           {}
 func (c *zvNullClient) Dispose()                                           {}
